@@ -243,6 +243,12 @@ def run_exec_contract(contract, env, call, universe=None, extra_helpers=None):
             raises[lab] = (exc, c.holds(base, c.snapshot(base)))
         except Exception:
             raises[lab] = (exc, None)
+    for lab, (exc, when) in (contract.get('must_raise') or {}).items():
+        try:
+            c = ExecClause(when)
+            raises['must:' + lab] = (exc, c.holds(base, c.snapshot(base)))
+        except Exception:
+            pass
     viol = []
     try:
         result = call()
@@ -253,7 +259,7 @@ def run_exec_contract(contract, env, call, universe=None, extra_helpers=None):
     if raised is not None:
         name = type(raised).__name__
         expected = [lab for lab, (exc, w) in raises.items() if exc == name and w]
-        declared = [lab for lab, (exc, w) in raises.items() if exc == name]
+        declared = [lab for lab, (exc, w) in raises.items() if exc == name and not lab.startswith('must:')]
         if not expected and name not in contract.get('may_raise', ()):
             viol.append((f'raises[{"/".join(declared) or "unexpected:" + name}]',
                          f'raised {name}: {raised} although no declared raising condition holds'))
